@@ -823,7 +823,7 @@ func (s *Scope) evalCall(e *Expr) *Val {
 		if a.K != KSlice || b.K != KSlice {
 			panic(sfail("disjoint: slices expected"))
 		}
-		return scalar(Neq(a.Base, b.Base), boolT)
+		return scalar(Or(Neq(a.Base, b.Base), Eq(a.Base, TNull)), boolT)
 	case "dyn":
 		// dyn(x, T): the *T held by interface value x (meaningful where typeis(x, T) holds)
 		a := argv(0)
